@@ -227,3 +227,22 @@ Proof.
   apply entry_ok in H. destruct H as (raw & root & A & B & C).
   exists raw, root. split; [exact A|]. split; [exact B|]. exact (P_Response.response_sound dsig ch cfg now root r Hs C).
 Qed.
+
+(* RetrieveAssertionInfo on top of the composed pipeline: when the composed source accepts with response r, the model accepts
+   with the same r and the translated RetrieveAssertionInfo, handed that result, returns the model's summary of r *)
+Theorem source_info_pipeline
+        inflate read_from_bytes rt_ok dsig rsa_oaep rsa_pkcs1 gcm_open cbc_decrypt sha1_hex parse_cert cfg kc venc now enc r :
+  G_ValidateEncodedResponse (src_parse inflate read_from_bytes rt_ok cfg) dsig
+    (src_decrypt_all inflate read_from_bytes rt_ok rsa_oaep rsa_pkcs1 gcm_open cbc_decrypt parse_cert cfg kc venc now) cfg now enc
+  = PVal (Ok (Some r)) ->
+  entry (model_parse inflate read_from_bytes rt_ok cfg) enc
+    (validate_response_tree dsig
+       (src_chain inflate read_from_bytes rt_ok rsa_oaep rsa_pkcs1 gcm_open cbc_decrypt sha1_hex parse_cert cfg kc venc now) cfg now)
+  = Ok (Some r) /\
+  G_RetrieveAssertionInfo cfg now enc (Ok (Some r)) = PVal (res_some (retrieve_info cfg now (Ok r))).
+Proof.
+  intros H. split.
+  - exact (proj1 (source_inbound_pipeline_accepts_iff inflate read_from_bytes rt_ok dsig rsa_oaep rsa_pkcs1 gcm_open cbc_decrypt sha1_hex
+                    parse_cert cfg kc venc now enc r) H).
+  - exact (G_RetrieveAssertionInfo_eq cfg now enc (Ok r)).
+Qed.
